@@ -262,9 +262,20 @@ def write_ufo(spec, path, structure="package", formatVersion=3):
     w.writeInfo(info)
     w.writeKerning({tuple(k.split("|")): v for k, v in spec["kerning"].items()})
     w.writeGroups(spec["groups"])
-    if spec["features"] is not None:
+    if spec["features"] is not None and formatVersion >= 2:
         w.writeFeatures(spec["features"])
     w.writeLib(spec["lib"])
+    if formatVersion < 3:
+        # UFO 1 and 2: one glyph directory (GLIF 1: ufoLib drops what that format has no element for),
+        # no layers, layer info, images or data; the kerning/groups/lib are written as given (raw
+        # pre-UFO-3 content: group names in the old scheme, UFO 1 feature and hint data inside the lib)
+        layer = [l for l in spec["layers"] if l["name"] == spec["default"]][0]
+        gs = w.getGlyphSet()
+        for gn, g in layer["glyphs"].items():
+            gs.writeGlyph(gn, _glyph_obj(g), lambda pen, g=g: _draw_gspec(pen, g))
+        gs.writeContents()
+        w.close()
+        return
     for n, seed in spec["images"].items():
         w.writeImage(n, png_bytes(seed))
     for n, seed in spec["data"].items():
